@@ -286,6 +286,15 @@ def s4(prog: Program, chk: Check) -> None:
                     "" if ok else f"expected the value to come from self._parameters.{p}", c[0])
 
 
+def s5(prog: Program, chk: Check) -> None:
+    chk.rule("S5", "TEMPO and PT-TEMPO build their dk=0 tensors from the reduced influence in "
+             "the same way: every axis indexed by the map that sized it and the basis axis by "
+             "the plain basis index, so every basis element is filled in both back ends "
+             "(necessary for equal results with unique=True on degenerate spectra)", floor=3)
+    from rules.c06 import backend_scatters
+    backend_scatters(prog, chk, "S5")
+
+
 def run(prog: Program, chk: Check) -> None:
     chk.explanation = (
         "Decides that TEMPO and PT-TEMPO + compute_dynamics are wired to the same inputs at the "
@@ -296,7 +305,8 @@ def run(prog: Program, chk: Check) -> None:
     chk.not_decided = ("Numerical agreement of the two contractions, the prefix property of the "
                        "caps and tightening with the tolerance.")
     chk.assumptions = ["role vocabulary (oqv/roles.py, oqv/rolebind.py)"]
-    s1(prog, chk)
-    s2(prog, chk)
-    s3(prog, chk)
-    s4(prog, chk)
+    chk.call(s1, prog, chk)
+    chk.call(s2, prog, chk)
+    chk.call(s3, prog, chk)
+    chk.call(s4, prog, chk)
+    chk.call(s5, prog, chk)
